@@ -10,7 +10,7 @@ Open Scope N_scope.
 
 (** Every integer token is the exact value of a well-formed integer literal: the text splits into
     an optional base prefix (0b/0o/0x, either case; none = decimal), a non-empty body of digits
-    of that radix and separators, and the rest; the token value is the Horner value of the body's
+    of that radix and separators containing at least one digit, and the rest; the token value is the Horner value of the body's
     digits, and it is below 2^64 -- never wrapped or truncated.  For ALL byte strings. *)
 Theorem C05_int : forall (l : list N) (v : N) (rest : list N),
   lex_number l = NOk (TInt v) rest -> int_literal l v rest /\ v < two64.
@@ -26,15 +26,18 @@ Proof.
   intros r ds Hr. split; [apply acc_u64_complete; exact Hr | apply acc_u64_none; exact Hr].
 Qed.
 
-(** The full statement would also say that the body contains at least one digit.  It is FALSE of
-    the faithful model for a base prefix followed by separators only (finding
-    c05-prefix-without-digits): *)
-Definition C05_int_digits_full : Prop :=
-  forall l v rest, lex_number l = NOk (TInt v) rest ->
-    exists pre r body, l = pre ++ body ++ rest /\ radix_prefix pre r /\ digits_of r body <> [].
+(** In particular the body contains at least one digit: a base prefix followed by separators only
+    (0x_ -- the finding c05-prefix-without-digits, since fixed) is rejected. *)
+Theorem C05_int_has_digit : forall (l : list N) (v : N) (rest : list N),
+  lex_number l = NOk (TInt v) rest ->
+  exists pre r body, l = pre ++ body ++ rest /\ radix_prefix pre r /\ digits_of r body <> [].
+Proof.
+  intros l v rest H. destruct (proj1 (lex_number_int l v rest H)) as (pre & r & body & Hl & Hp & Hd & _).
+  now exists pre, r, body.
+Qed.
 
-Theorem C05_int_digits_refuted :
-  lex_number [48; 120; 95] = NOk (TInt 0) [] /\ prefix_without_digits [48; 120; 95] = true.
+Example C05_prefix_without_digits_rejected :
+  lex_number [48; 120; 95] = NFail /\ lex_number [48; 98; 95; 50] = NFail.
 Proof. vm_compute. split; reflexivity. Qed.
 
 (** Decimal literals always contain a digit. *)
@@ -115,8 +118,9 @@ Example C05_nonvacuous :
   lex_number [49;56;52;52;54;55;52;52;48;55;51;55;48;57;53;53;49;54;49;53] = NOk (TInt 18446744073709551615) [] /\
   lex_number [49;56;52;52;54;55;52;52;48;55;51;55;48;57;53;53;49;54;49;54] = NFail /\
   lex_number [48;120;70;70;70;70;95;70;70;70;70;95;70;70;70;70;95;70;70;70;70] = NOk (TInt 18446744073709551615) [] /\
-  (* 1_0.5e-1_ is the float 105 * 10^-2 *)
+  (* 1_0.5e-1_ is the float 105 * 10^-2; 12._5 is the float 12 followed by _5 *)
   lex_number [49;95;48;46;53;101;45;49;95] = NOk (TFloat 105 (-2)) [] /\
+  lex_number [49;50;46;95;53] = NOk (TFloat 12 0) [95;53] /\
   signed_operand true 9223372036854775808 = Some (- 9223372036854775808)%Z /\
   signed_operand false 9223372036854775808 = None /\
   signed_operand false 18446744073709551615 = None /\
